@@ -95,6 +95,7 @@ def simple_models_job(job) -> dict:
         # conversion
         q = rng.choice([{"n": 1, "e": 1}, {"n": 1, "e": 0}, {"n": 3, "e": 2}, {"n": 0, "e": 0}, {"n": 5, "e": 3}])
         ph = np.array([[rng.choice([0, 8, 64, 4096, 2 ** 20]) for _ in range(4)] for _ in range(3)], dtype=float)
+        ph_frac = np.array([[rng.choice([0.0, 0.75, 1.6, 2.5, 2.7, 99.6, 64.0]) for _ in range(4)] for _ in range(3)], dtype=float)
         det = px.make_detector(kind, *shape); det.set_readout(times=[1.0]); det.empty()
         det.photon.array = ph.copy()
         simple_conversion(det, quantum_efficiency=q["n"] / 2.0 ** q["e"], binomial_sampling=False)
@@ -107,6 +108,14 @@ def simple_models_job(job) -> dict:
         for y in range(3):
             for x in range(4):
                 events.append({"e": "sample", "ph": int(ph[y, x]), "out": _iv(det.charge.array[y, x])})
+        # photon counts need not be whole numbers: the charge (a whole number) never exceeds them
+        for qe_ in (1.0, rng.choice([0.9, 0.99])):
+            det = px.make_detector(kind, *shape); det.set_readout(times=[1.0]); det.empty()
+            det.photon.array = ph_frac.copy()
+            simple_conversion(det, quantum_efficiency=qe_, binomial_sampling=True, seed=job["seed"] + 1)
+            for y in range(3):
+                for x in range(4):
+                    events.append({"e": "sample", "ph": int(np.floor(ph_frac[y, x])), "out": _iv(det.charge.array[y, x])})
         # full well, once and twice
         cap = rng.choice([0, 5, 100, 65000])
         det = px.make_detector(kind, *shape); det.set_readout(times=[1.0]); det.empty()
